@@ -148,9 +148,9 @@ def rule_bounded(rep: Report, repo: Repo) -> None:
     rep.rule('C10.BOUNDED', 'every loop or comprehension whose trip count comes from a file field consumes file bytes on each '
              'iteration (so it ends by struct.error), follows the pool-range check, or is under the dense-tail threshold', 5)
     seg = repo.func(R, 'Reader._init_segments')
-    comp = [n for n in ast.walk(seg) if isinstance(n, ast.ListComp)]
-    ok = bool(comp) and norm(comp[0].generators[0].iter) == 'range(self.segment_num)' and \
-        norm(comp[0].elt) == 'unpack(_segment_format, fjm_file.read(_segment_size))'
+    folds_s = comprehension_or_loop(seg)           # the comprehension, or the equivalent append loop
+    ok = len(folds_s) == 1 and norm(folds_s[0][0]) == 'range(self.segment_num)' and \
+        norm(folds_s[0][1]) == 'unpack(_segment_format, fjm_file.read(_segment_size))'
     rep.check(ok, 'C10.BOUNDED', '_init_segments:range(segment_num)', 'each iteration unpacks one exact-size record (a short read raises)',
               f'{R}:{seg.lineno}')
     rd = repo.func(R, 'Reader._read_decompressed_data')
